@@ -89,6 +89,11 @@ def check(ctx: Ctx) -> None:
                    detail="" if guarded else "the wake-up is unconditional: a task waiting for room is admitted even when the limit was lowered below the number of running tasks")
     A.r_validate_first(ctx, "R15.4", ("pool_size.setter",), floor=1)
     A.r_raise_inventory(ctx, "R15.4i", entries={"pool_size.setter"}, guards={"size"})
+    # the limit in force after an assignment is only as good as the slot discipline (shared with C01)
+    from . import shared as S
+    S.r_who_release(ctx, "R15.6")
+    S.r_who_write_semaphore(ctx, "R15.7")
+    S.r_acquire_dominates_create(ctx, "R15.8")
     # constructor goes through the setter
     for f in ctx.pool_funcs("__init__"):
         if f.cls is not ctx.base:
